@@ -20,18 +20,26 @@ What is stated where (clause → theorem):
   message was created by a `put` or an `enqueue` of the history, with exactly its fields),
   `queued_message_assignment` (enqueue-origin ⇒ the assignee qualified in the snapshot / tables of the
   state the request ran in, and the relayer address is its first target-chain account there),
-  `every_message_assigned_by_pick` (histories without the keeper-level `put`: all messages).  SCOPE: the
-  keeper-level `put` (`PutMessageInQueue`) stores whatever assignee its caller passes; in /repo every
-  producer of a turnstone message calls `PickValidatorForMessage` first, which is `enqueue`;
+  `every_message_assigned_by_pick` (histories without the keeper-level `put`: all messages),
+  `every_message_assigned_to_a_qualifying_validator` (ALL entry points and kinds — validator-set updates and
+  hand-overs included — under `PutsFollowPick`: every `put` is fed by the pick).  SCOPE: the keeper-level
+  `put` (`PutMessageInQueue`) stores whatever assignee its caller passes; in /repo every producer of a
+  turnstone message calls `PickValidatorForMessage` first (EXTERNAL ASSUMPTION about the callers, by reading
+  x/evm/keeper: `PublishValsetToChain`, `AddSmartContractExecutionToConsensus`,
+  `AddUploadUserSmartContractToConsensus`, `scheduleCompassHandover`, `AddUploadSmartContractToConsensus`);
+  "current snapshot" = current when the message was assigned;
 * "(whose address becomes the signed relayer address)": `picked_address_is_the_signed_relayer_address`;
 * "if no such validator exists the request fails without enqueuing anything":
   `no_eligible_fails_without_enqueue`, `failed_request_enqueues_nothing`;
 * relay offering: `offered_iff` (exact), `never_ahead_of_older_valset_update`, `relay_answer_sound`,
   `relay_never_ahead_of_valset_update_all_histories`, `one_per_sender_all_histories` (reachable states,
-  all kinds), `sender_only_on_fee_payers`, `sender_registered_before_assignee_test`;
+  all kinds; "still pending" is READ as "unreported": `reported_older_message_does_not_block`,
+  `one_per_sender_still_queued_reading_false`), `sender_only_on_fee_payers`,
+  `sender_registered_before_assignee_test`, `no_put_all_require_estimation`, `offered_requires_elected_no_put`;
 * fees: `fees_formula`, `fees_out_of_range_is_error`, `elected_fees_attached` (one message),
-  `elected_and_fees_written_only_by_endBlock`, `fees_provenance`, `attached_fees_are_ceil`,
-  `offered_fee_payer_carries_ceil_fees` (over whole histories).
+  `elected_and_fees_written_only_by_endBlock`, `fees_provenance`, `elected_immutable_hist` (written once),
+  `attached_fees_are_ceil`, `offered_fee_payer_carries_ceil_fees`, `offered_fee_payer_carries_ceil_fees_no_put`
+  (over whole histories); scope witness `put_path_offers_fee_payer_without_fees`.
 -/
 import PalomaModel.Model.Queue
 import PalomaModel.Props.C06
@@ -130,6 +138,24 @@ theorem insertScored_sorted (x : Scored) (l : List Scored) (h : l.Pairwise RankL
       rcases (mem_insertScored x z ys).mp hz with rfl | hz
       · exact rankLe_of_not_before hb
       · exact hy z hz
+
+theorem insertScored_perm' (x : Scored) (l : List Scored) : (insertScored x l).Perm (x :: l) := by
+  induction l with
+  | nil => simp [insertScored]
+  | cons y ys ih =>
+    unfold insertScored
+    split
+    · exact List.Perm.refl _
+    · exact (List.Perm.cons y ih).trans (List.Perm.swap x y ys)
+
+/-- the ranking is a rearrangement of its input: nothing is dropped, nothing is duplicated -/
+theorem rank_is_perm (l : List Scored) : (rank l).Perm l := by
+  induction l with
+  | nil => simp [rank]
+  | cons x xs ih =>
+    have : rank (x :: xs) = insertScored x (rank xs) := rfl
+    rw [this]
+    exact (insertScored_perm' x (rank xs)).trans (List.Perm.cons x ih)
 
 /-- A validator qualifies for a job — stated directly on the tables, not through the model's filter
     function: a metrics record and a relayer-fee record exist for it (a record with multiplier 0 IS a
@@ -586,9 +612,10 @@ theorem qualifies_iff_eligible (env : Env) (snap : Snap) (mev : Bool) (id : Nat)
   rw [eligible_iff]
 
 /-- **rank_sorted.** The ranked list is sorted by score (descending) with ties broken by address
-(ascending) and is a rearrangement of its input — the order `slices.SortStableFunc` produces. -/
-theorem rank_sorted (l : List Scored) : (rank l).Pairwise RankLe ∧ ∀ y, y ∈ rank l ↔ y ∈ l := by
-  refine ⟨?_, fun y => mem_rank y l⟩
+(ascending) and is a PERMUTATION of its input (every validator info exactly as often as it was supplied) —
+the order `slices.SortStableFunc` produces. -/
+theorem rank_sorted (l : List Scored) : (rank l).Pairwise RankLe ∧ (rank l).Perm l ∧ ∀ y, y ∈ rank l ↔ y ∈ l := by
+  refine ⟨?_, rank_is_perm l, fun y => mem_rank y l⟩
   induction l with
   | nil => simp [rank]
   | cons x xs ih => exact insertScored_sorted x (rank xs) ih
@@ -935,8 +962,9 @@ the current snapshot, has an account on the target chain, has a relayer fee and 
 record, and carries the MEV trait when the job demands it" — over whole histories).  For every message in
 the queue after ANY history, either
 
-* it entered through the keeper-level `put` (assignee chosen by the caller — in /repo no producer of a
-  relayed message does that without calling the pick first), or
+* it entered through the keeper-level `put` (assignee chosen by the caller: NOTHING is claimed about it in this
+  branch — in /repo no producer of a relayed message does that without calling the pick first, and under that
+  hypothesis `every_message_assigned_to_a_qualifying_validator` gives the full clause for this branch too), or
 * it entered through an `enqueue … mev ts` of the history, and in the state `run pre` that request ran in
   there was a snapshot `snap` in which the assignee `Qualifies` for the job (metrics record, fee record,
   first snapshot entry `sv`, first target-chain account `a`, MEV trait if `mev`), the relayer address of
@@ -977,6 +1005,52 @@ theorem every_message_assigned_by_pick (ops : List Op)
   · exact ⟨pre, post, sd, mev, ts, snap, he, hreq, hsnap, hq, sv, hsv, a, ha, hr⟩
 
 
+
+/-- every `put` of the history passes an assignee and relayer address that the relayer pick returns in the
+state the `put` runs in (for some MEV flag and block time) — what every producer of a turnstone message in
+/repo does, whatever `PutOptions` it passes (`PublishValsetToChain`, `AddSmartContractExecutionToConsensus`,
+`AddUploadUserSmartContractToConsensus`, `scheduleCompassHandover`: estimation required;
+`AddUploadSmartContractToConsensus`: not required).  Histories without any `put` satisfy it trivially. -/
+def PutsFollowPick (ops : List Op) : Prop :=
+  ∀ pre post k c sd a r q, ops = pre ++ Op.put k c sd a r q :: post →
+    ∃ mev ts, pick (run pre).env mev ts = some (a, r)
+
+theorem putsFollowPick_of_no_put {ops : List Op} (hnoput : ∀ o ∈ ops, ∀ k c sd a r q, o ≠ Op.put k c sd a r q) :
+    PutsFollowPick ops := by
+  intro pre post k c sd a r q he
+  exact absurd rfl (hnoput (Op.put k c sd a r q) (by rw [he]; simp) k c sd a r q)
+
+/-- **every_message_assigned_to_a_qualifying_validator** (clause 1 over whole histories, ALL entry points and
+ALL kinds — validator-set updates included).  If every keeper-level `put` of the history is fed by the relayer
+pick (`PutsFollowPick`; the request-level `enqueue` always is), then EVERY message in the queue after the
+history was created at a point `pre` of the history where a snapshot `snap` existed in which its assignee
+`Qualifies` for the job (in the current snapshot, metrics and fee record, first target-chain account, MEV
+trait when demanded), and its relayer address is the address of that account.  "Current" = current when the
+message was assigned: later changes of the environment do not re-assign (`core_fields_never_change`). -/
+theorem every_message_assigned_to_a_qualifying_validator (ops : List Op) (hp : PutsFollowPick ops) :
+    ∀ it ∈ (run ops).queue,
+      ∃ pre post o mev ts snap, ops = pre ++ o :: post ∧ it.id = (run pre).nextId + 1 ∧
+        (run pre).env.snapshot = some snap ∧ pick (run pre).env mev ts = some (it.assignee, it.remote) ∧
+        Qualifies (run pre).env snap mev it.assignee ∧
+        ∃ sv, snap.vals.find? (fun x => x.id == it.assignee) = some sv ∧
+          ∃ a, chainAccount sv.accounts = some a ∧ a.chain = targetChain ∧ a.addr = it.remote ∧
+            (mev = true → a.mev = true) := by
+  intro it hit
+  obtain ⟨pre, post, o, he, hid, sd, _, ho | ⟨mev, ts, ho, hpk, _⟩⟩ := item_origin ops it hit
+  · obtain ⟨mev, ts, hpk⟩ := hp pre post it.kind it.content sd it.assignee it.remote it.reqEst (by rw [he, ho])
+    obtain ⟨snap, hsnap, hq, sv, hsv, a, ha, hr, hmev⟩ := pick_qualifies _ mev ts _ _ hpk
+    exact ⟨pre, post, o, mev, ts, snap, he, hid, hsnap, hpk, hq, sv, hsv, a, ha, (chainAccount_spec ha).2, hr, hmev⟩
+  · obtain ⟨snap, hsnap, hq, sv, hsv, a, ha, hr, hmev⟩ := pick_qualifies _ mev ts _ _ hpk
+    exact ⟨pre, post, o, mev, ts, snap, he, hid, hsnap, hpk, hq, sv, hsv, a, ha, (chainAccount_spec ha).2, hr, hmev⟩
+
+/-- **no_put_all_require_estimation.** In a history without the keeper-level `put`, every queued message — of
+every kind — requires gas estimation (every `enqueue` sets the flag, nothing ever clears it). -/
+theorem no_put_all_require_estimation (ops : List Op)
+    (hnoput : ∀ o ∈ ops, ∀ k c sd a r q, o ≠ Op.put k c sd a r q) :
+    ∀ it ∈ (run ops).queue, it.reqEst = true := by
+  intro it hit
+  obtain ⟨_, _, _, _, _, _, _, hreq, _⟩ := every_message_assigned_by_pick ops hnoput it hit
+  exact hreq
 
 /-- **picked_address_is_the_signed_relayer_address** ("whose address becomes the signed relayer
 address").  In every reachable state the relayer component of a message's signing bytes is the eth account
@@ -1020,7 +1094,11 @@ theorem sender_only_on_fee_payers (ops : List Op) :
 pending" — reachable states, every kind of message, no side condition on filters).  In the state reached
 by ANY history: if the queue holds an older message `j` of the same non-empty sender as `it` and `j` has
 neither a delivery nor an error report, then `it` is offered to NO validator — whoever `j` is assigned
-to and whether or not `j`'s estimate is elected. -/
+to and whether or not `j`'s estimate is elected.
+EXPLICIT WEAKENING: "still pending" is read as "unreported" (`hp`, `he`).  An older message that is still
+queued but already carries a report does NOT block (`reported_older_message_does_not_block`,
+`one_per_sender_still_queued_reading_false`); that is what /repo does (`IsUnprocessed && … &&
+IsOldestMsgPerSender`). -/
 theorem one_per_sender_all_histories (ops : List Op) (v : Nat) (j it : Item)
     (hj : j ∈ (run ops).queue) (hit : it ∈ (run ops).queue) (hlt : j.id < it.id)
     (hp : j.pub = false) (he : j.err = false) (hs : it.sender ≠ 0) (heq : j.sender = it.sender) :
@@ -1125,6 +1203,38 @@ theorem fees_provenance (ops : List Op) :
     · rw [hnew]
       exact Or.inl ⟨rfl, rfl⟩
 
+/-- **elected_immutable_hist** (clause 3, "written once" — over whole histories).  Once a message has an
+elected estimate, its elected estimate and its attached fees are the same at every later point of every
+history: later estimates, later end-block steps, later changes of the fee table, of the treasury rates or of
+the snapshot never touch them.  Together with `fees_provenance` (before the election both are empty) and
+`elected_and_fees_written_only_by_endBlock`: the two fields are written exactly once, by one end-block step. -/
+theorem elected_immutable_hist (pre post : List Op) (it it' : Item) (hit : it ∈ (run pre).queue)
+    (hit' : it' ∈ (run (pre ++ post)).queue) (hid : it'.id = it.id) (hel : it.elected ≠ 0) :
+    it'.elected = it.elected ∧ it'.fees = it.fees := by
+  induction post using snoc_induction generalizing it' with
+  | h0 =>
+    rw [List.append_nil] at hit'
+    have := uniq_id (invariant_all_histories pre).2.2 hit' hit hid
+    subst this
+    exact ⟨rfl, rfl⟩
+  | hs post op ih =>
+    rw [← List.append_assoc, run_snoc] at hit'
+    rcases step_new (run (pre ++ post)) op it' hit' with ⟨it1, hit1, hid1⟩ | ⟨hnew, _⟩
+    · obtain ⟨e1, f1⟩ := ih it1 hit1 (by rw [hid1, hid])
+      rcases step_full (run (pre ++ post)) (invariant_all_histories _) op it1 it' hit1 hit' hid1.symm with
+        heq | hs | ⟨v, a, b, f, w, key, _, _, _, heq⟩ | ⟨snap, _, _, heq⟩
+      · rw [heq]; exact ⟨e1, f1⟩
+      · exact ⟨by rw [hs.2.1, e1], by rw [hs.2.2.1, f1]⟩
+      · rw [heq]; exact ⟨e1, f1⟩
+      · rcases electOne_spec (run (pre ++ post)).env snap it1 with he | ⟨_, h0, _⟩
+        · rw [heq, he]; exact ⟨e1, f1⟩
+        · exact absurd (e1 ▸ h0) hel
+    · exfalso
+      have h1 := (invariant_all_histories pre).2.2.2 it hit
+      have h2 : (run pre).nextId ≤ (run (pre ++ post)).nextId := by
+        rw [run_append]; exact nextId_mono_foldl post _
+      omega
+
 /-- **attached_fees_are_ceil** (clause 3, complete, over whole histories).  Whenever a queued message carries
 fees `(r, cf, sf)` — in the state reached by any history — there is an end-block step in the history at
 which they were computed: with `m` the positive relayer multiplier on record for the message's ASSIGNEE,
@@ -1167,6 +1277,44 @@ theorem offered_fee_payer_carries_ceil_fees (ops : List Op) (v : Nat) (it : Item
   · omega
   · exact ⟨ha, f, hf⟩
   · rw [hk] at hk'; cases hk'
+
+/-- **offered_requires_elected_no_put** (clause 2 "only once its gas estimate … is elected", for every message
+the producers of /repo enqueue; cited by C05 in place of a hard-coded flag).  In a history without the
+keeper-level `put`, a message the relay query offers — to anybody, of any kind, validator-set updates and
+compass hand-overs included — requires estimation AND has a non-zero elected estimate. -/
+theorem offered_requires_elected_no_put (ops : List Op)
+    (hnoput : ∀ o ∈ ops, ∀ k c sd a r q, o ≠ Op.put k c sd a r q)
+    (v : Nat) (it : Item) (hit : it ∈ (run ops).queue) (hoff : it.id ∈ offered (run ops).queue v) :
+    it.reqEst = true ∧ it.elected ≠ 0 := by
+  have hreq := no_put_all_require_estimation ops hnoput it hit
+  obtain ⟨pre, it', post, hq, hid, _, _, _, hel, _, _⟩ := (offered_iff _ v it.id).mp hoff
+  have hmem : it' ∈ (run ops).queue := by rw [hq]; simp
+  have e : it' = it := uniq_id (invariant_all_histories ops).2.2 hmem hit hid
+  subst e
+  have := hel hreq
+  exact ⟨hreq, by omega⟩
+
+/-- **offered_fee_payer_carries_ceil_fees_no_put** (clauses 2 + 3 composed, no side condition on the message).
+In a history without the keeper-level `put`, a fee-paying message that is offered for relay is offered to
+its assignee and carries fees `(r, cf, sf)` which are the ceil fees of `attached_fees_are_ceil`: computed at
+an end-block step of the history from the assignee's positive multiplier, the positive treasury rates of
+that moment and the elected estimate. -/
+theorem offered_fee_payer_carries_ceil_fees_no_put (ops : List Op)
+    (hnoput : ∀ o ∈ ops, ∀ k c sd a r q, o ≠ Op.put k c sd a r q)
+    (v : Nat) (it : Item) (hit : it ∈ (run ops).queue)
+    (hoff : it.id ∈ offered (run ops).queue v) (hk : it.kind.feePayer = true) :
+    it.assignee = v ∧ it.elected ≠ 0 ∧ ∃ r cf sf, it.fees = some (r, cf, sf) ∧
+      ∃ pre post m, ops = pre ++ Op.endBlock :: post ∧
+        assoc? (run pre).env.fees it.assignee = some m ∧ 0 < m ∧
+        0 < (run pre).env.community ∧ 0 < (run pre).env.security ∧
+        P * ((r : Int) - 1) < m * it.elected ∧ m * it.elected ≤ P * r ∧
+        P * ((cf : Int) - 1) < (run pre).env.community * r ∧ (run pre).env.community * r ≤ P * cf ∧
+        P * ((sf : Int) - 1) < (run pre).env.security * r ∧ (run pre).env.security * r ≤ P * sf ∧
+        r < U64 ∧ cf < U64 ∧ sf < U64 := by
+  have hreq := no_put_all_require_estimation ops hnoput it hit
+  obtain ⟨ha, ⟨r, cf, sf⟩, hf⟩ := offered_fee_payer_carries_ceil_fees ops v it hit hoff hk hreq
+  obtain ⟨_, hel, hrest⟩ := attached_fees_are_ceil ops it hit r cf sf hf
+  exact ⟨ha, hel, r, cf, sf, hf, hrest⟩
 
 /-! ### non-vacuity -/
 
@@ -1266,5 +1414,95 @@ to it.  In /repo every producer of a relayed message obtains the assignee from t
 example : offered (run [.put .slc 7 1 99 4 false]).queue 99 = [1] := by decide
 -- only fee-paying actions have a sender: whatever the caller passes for a validator-set update is dropped
 example : ((run [.put .valset 7 5 2 8 false, .put .other 7 5 2 8 false, .put .uusc 7 5 2 8 false]).queue.map (·.sender)) = [0, 0, 5] := by decide
+
+/-! ### validator-set updates and hand-overs through the relayer pick; assignment is "current at assignment" -/
+
+/-- a validator-set update and a compass hand-over enter the way `PublishValsetToChain` /
+`scheduleCompassHandover` enqueue them: relayer pick first (no MEV demand), estimation required -/
+def demoValsetHist : List Op :=
+  [ .setEnv demoEnv, .enqueue .valset 5 0 false 0, .enqueue .other 6 0 false 1,
+    .addEstimate 1 1 50000, .addEstimate 1 2 50000, .endBlock ]
+
+-- no keeper-level `put`: `every_message_assigned_by_pick`, `offered_requires_elected_no_put`, … apply to it
+example : ∀ o ∈ demoValsetHist, ∀ k c sd a r q, o ≠ Op.put k c sd a r q := by
+  intro o ho k c sd a r q h
+  subst h
+  simp [demoValsetHist] at ho
+
+-- both are assigned to the picked validators with their snapshot accounts, both require estimation; the update is
+-- offered to its assignee once 50000 is elected (no fees: not a fee payer), the hand-over behind it to nobody
+example : ((run demoValsetHist).queue.map fun it => (it.id, it.kind, it.assignee, it.remote)) =
+      [(1, .valset, 1, 4), (2, .other, 2, 8)] ∧
+    ((run demoValsetHist).queue.map fun it => (it.reqEst, it.elected, it.fees)) = [(true, 50000, none), (true, 0, none)] ∧
+    offered (run demoValsetHist).queue 1 = [1] ∧ offered (run demoValsetHist).queue 2 = [] ∧
+    offered (run (demoValsetHist.take 5)).queue 1 = [] := by decide
+
+-- "current" is current AT ASSIGNMENT: after the environment is wiped (no snapshot, no records) the message stays
+-- assigned and offered to validator 1, although a new request could not pick anybody
+example : offered (run (demoHist ++ [.setEnv {}])).queue 1 = [1] ∧ pick (run (demoHist ++ [.setEnv {}])).env false 0 = none := by
+  decide
+
+/-! ### FINDINGS and explicit readings (each through `run` from the initial state) -/
+
+/-- `demoHist` continued: message 2 (same sender 9, assignee 2) gets its estimate elected, then message 1 gets its
+delivery report — message 1 is STILL IN THE QUEUE (reported, not yet attested) -/
+def reportedOlder : List Op :=
+  demoHist ++ [.addEstimate 2 1 20000, .addEstimate 2 2 20000, .endBlock, .setPublic 1]
+
+/-- **reported_older_message_does_not_block** (READING of "never while an older message from the same sender is
+still pending"; recorded as a FINDING about the wording, behaviour of /repo confirmed).  The per-sender filter
+reads "pending" as "has neither delivery nor error report": `IsUnprocessed` is `&&`-ed before
+`IsOldestMsgPerSender`, so an older message that already carries a report never registers its sender.  Here the
+older message 1 of sender 9 is still queued — reported by its relayer, not yet attested, so not yet paid for —
+and the younger message 2 of the same sender IS offered.  The history uses request-level `enqueue` only. -/
+theorem reported_older_message_does_not_block :
+    ((run reportedOlder).queue.map fun it => (it.id, it.sender, it.pub, it.err)) = [(1, 9, true, false), (2, 9, false, false)] ∧
+    offered (run reportedOlder).queue 2 = [2] ∧
+    offered (run (reportedOlder.take 10)).queue 2 = [] := by decide
+
+/-- **one_per_sender_still_queued_reading_false.**  FULL-STRENGTH reading "… never while an older message from
+the same sender is still IN THE QUEUE" is FALSE (witness above); the true statement is
+`one_per_sender_all_histories`, whose hypotheses `j.pub = false`, `j.err = false` ARE the weakening. -/
+theorem one_per_sender_still_queued_reading_false :
+    ¬ (∀ (ops : List Op) (v : Nat) (j it : Item), j ∈ (run ops).queue → it ∈ (run ops).queue → j.id < it.id →
+        it.sender ≠ 0 → j.sender = it.sender → it.id ∉ offered (run ops).queue v) := by
+  intro h
+  have hq : ((run reportedOlder).queue.map fun it => (it.id, it.sender)) = [(1, 9), (2, 9)] := by decide
+  cases hrun : (run reportedOlder).queue with
+  | nil => rw [hrun] at hq; simp at hq
+  | cons j rest =>
+    cases rest with
+    | nil => rw [hrun] at hq; simp at hq
+    | cons it rest2 =>
+      rw [hrun] at hq
+      simp only [List.map_cons, List.cons.injEq, Prod.mk.injEq] at hq
+      obtain ⟨⟨hj1, hj2⟩, ⟨hi1, hi2⟩, _⟩ := hq
+      have := h reportedOlder 2 j it (by rw [hrun]; simp) (by rw [hrun]; simp) (by omega) (by omega) (by omega)
+      apply this
+      rw [hi1]
+      decide
+
+/-- **put_path_offers_fee_payer_without_fees** (SCOPE of `offered_fee_payer_carries_ceil_fees`: its `hreq`
+cannot be dropped at the keeper level).  `PutMessageInQueue` with `RequireGasEstimation: false` stores a
+fee-paying message that is offered at once, with no fees attached; its signing bytes carry the default fee
+triple 100000.  No producer in /repo enqueues a fee-paying action that way
+(`offered_fee_payer_carries_ceil_fees_no_put` is the statement for what they do enqueue). -/
+theorem put_path_offers_fee_payer_without_fees :
+    offered (run [.put .slc 7 1 1 4 false]).queue 1 = [1] ∧
+    ((run [.put .slc 7 1 1 4 false]).queue.map fun it => (it.fees, (bytesOf it).fr, (bytesOf it).fc, (bytesOf it).fs)) =
+      [(none, 100000, 100000, 100000)] := by decide
+
+/-- the queue `demoUU` of the pre-fix witness is a reachable one -/
+def demoUUOps : List Op :=
+  [ .put .uusc 1 7 2 8 false, .put .uusc 2 7 2 8 false, .put .slc 3 7 2 8 false, .put .uusc 4 0 2 8 false ]
+
+example : (run demoUUOps).queue = demoUU := by decide
+/-- **pre-fix witness (be3dcb4f), through `run`.** -/
+example : offeredWith senderMsgPreFix (run demoUUOps).queue 2 = [1, 2, 3, 4] ∧ offered (run demoUUOps).queue 2 = [1, 4] := by
+  decide
+
+-- `elected_immutable_hist` is not vacuous: `demoHist` elects 21000 for message 1; a later fee-table change, a late
+-- estimate and another end-block leave estimate and fees as they were (example above, "estimates after the election …")
+example : ((run demoHist).queue.map fun it => (it.id, it.elected)) = [(1, 21000), (2, 0)] := by decide
 
 end Paloma.Queue
